@@ -295,7 +295,7 @@ def find_counterexample(prop, unit, fn, obligation, tier):
                 return {'found_by': 'native heap audit of the real memory code', 'backend': backend, 'input': v.get('input'),
                         'what': v.get('what'), 'instructions': v.get('instructions'), 'replay_cmd': cmd}
         return None
-    if backend and unit.endswith('_routine'):
+    if backend and (unit.endswith('_routine') or 'caller_save' in fn or 'print_i64' in fn):
         try:
             sums, cmd = native_run(['prints', '--tier', 'quick'], timeout=900)
         except Exception:
